@@ -857,6 +857,47 @@ func (c *Ctx) loopTotality(rule string, ds []*declInfo, table map[string]loopPol
 			}
 			// loop-carried alias: the address of a variable that outlives one iteration is
 			// stored into a per-iteration element — every element ends up sharing one buffer
+			// … or appended to the list being built: `xs = append(xs, &v)` with v declared outside
+			// the loop and rewritten by it — every element is the same pointer
+			ast.Inspect(li.body, func(m ast.Node) bool {
+				ce, ok := m.(*ast.CallExpr)
+				if !ok {
+					return true
+				}
+				if id, isId := ce.Fun.(*ast.Ident); !isId || id.Name != "append" || len(ce.Args) < 2 {
+					return true
+				}
+				for _, a := range ce.Args[1:] {
+					u, ok := a.(*ast.UnaryExpr)
+					if !ok || u.Op != token.AND {
+						continue
+					}
+					id, ok := u.X.(*ast.Ident)
+					if !ok {
+						continue
+					}
+					v := objOf(d.pkg, id)
+					if v == nil || !declaredOutside(v, li.stmt) || !isLocal(d, v) {
+						continue
+					}
+					written := false
+					ast.Inspect(li.body, func(k ast.Node) bool {
+						if as, isAs := k.(*ast.AssignStmt); isAs {
+							for _, l := range as.Lhs {
+								if baseObj(d, l) == v {
+									written = true
+								}
+							}
+						}
+						return !written
+					})
+					if written {
+						bad = true
+						c.bad("loop-carried-alias", li.id+"#&"+v.Name(), c.P.Pos(ce.Pos()), fmt.Sprintf("inside the loop over %s the address of %s, which is declared outside the loop and rewritten in it, is appended to %s: all appended elements are one pointer and show the last iteration's contents", li.subject, v.Name(), types.ExprString(ce.Args[0])))
+					}
+				}
+				return true
+			})
 			ast.Inspect(li.body, func(m ast.Node) bool {
 				as, ok := m.(*ast.AssignStmt)
 				if !ok {
